@@ -85,7 +85,7 @@ def parse_lib_log(text):
                 ev.append(('NOT', float(f[1]), float(f[2]), int(f[3]), int(f[4]), int(f[5])))
             elif k == 'EV' and len(f) >= 5:
                 ev.append(('EV', float(f[1]), int(f[2]), int(f[3]), f[4]))
-            elif k in ('STALL', 'STALLEND', 'DIS', 'KIL', 'TO', 'END', 'BEGIN', 'BUF'):
+            elif k in ('STALL', 'STALLEND', 'DIS', 'KIL', 'TO', 'END', 'BEGIN', 'BUF', 'IOC', 'NOSUB'):
                 ev.append((k, float(f[1])) + tuple(f[2:]))
             elif k == 'ERR':
                 ev.append(('ERR', float(f[1]), ' '.join(f[2:])))
@@ -264,6 +264,8 @@ class Judge:
                 gap_ok = False
                 if taint > 0:
                     taint -= 1
+            elif k == 'IOC':
+                gap_ok = True
             elif k == 'UPD0':
                 gap_ok = True
             elif k == 'UPD':
